@@ -307,8 +307,8 @@ func genCmd(r *rand.Rand, prop string, names, nonlib []string, cur map[string]st
 			st.Header = "good"
 			st.HdrRel = r.IntN(3) == 0
 		}
-		if st.Cmd == "gen" && r.IntN(3) == 0 {
-			st.Prefix = pick(r, []string{"x_", "zz", "v1.gen."})
+		if st.Cmd == "gen" && r.IntN(2) == 0 {
+			st.Prefix = pick(r, []string{"x_", "zz", "v1.gen.", "../lib/"})
 		}
 		if r.IntN(3) == 0 {
 			st.Tags = pick(r, []string{"foo", "foo bar"})
